@@ -433,13 +433,14 @@ def jobs(tier):
         out.append(('composed_cov', 'case_composed_cov', dict(
             kinds=list(kinds), covs=list(covs), n_ids=2), {}))
     dims = [1, 2] if tier == 'quick' else [1, 2, 3]
-    ids = [1, 2] if tier == 'quick' else [1, 2, 3]
+    ids = [1, 2] if tier == 'quick' else [1, 2, 3, 4]
     for kind in ps.KINDS:
         for n_dim in dims:
             for n_ids in ids:
                 out.append(('value', 'case_value',
                             dict(kind=kind, n_dim=n_dim, n_ids=n_ids),
-                            {'max_paths': 1100}))
+                            {'max_paths': 1100 if n_ids * n_dim < 12
+                             else 5000}))
                 for up in (False, True):
                     out.append(('sens', 'case_sens', dict(
                         kind=kind, n_dim=n_dim, n_ids=n_ids, upstream=up),
@@ -474,7 +475,7 @@ BOUNDS = dict(
           'TruncatedGaussian, Pooled, Heterogeneous), n_dim 1..2, n_ids 1..2, '
           '3 parameter layouts, 3 return forms, with/without upstream '
           'sensitivities; 5 compositions + 4 with a multi-dimensional sub-model in front + 4 whose sub-models carry 1-2 covariates each',
-    thorough='n_dim 1..3, n_ids 1..3; all 49 ordered pairs of kinds composed '
+    thorough='n_dim 1..3, n_ids 1..4; all 49 ordered pairs of kinds composed '
              '(mixed dimensionalities)',
     outside='larger n_dim / n_ids; sigma = 0 exactly; covariate models (C07); '
             'ReducedPopulationModel (C08)')
